@@ -496,6 +496,24 @@ def pairs():
                       lambda: pipe.transfer(5, float('inf')))
         await b.probe('UnboundedPipe.transfer[positive, limit]', lambda: pipe.transfer(4, 2))
 
+    @add('Pipe(inf).transfer')
+    async def _(b):
+        inf = float('inf')
+        pipe = Pipe(throughput=inf)     # a regular pipe that never congests
+        await b.probe('Pipe(inf).transfer[zero]', lambda: pipe.transfer(0))
+        await b.probe('Pipe(inf).transfer[positive]', lambda: pipe.transfer(5))
+        await b.probe('Pipe(inf).transfer[positive, inf limit]', lambda: pipe.transfer(5, inf))
+        await b.probe('Pipe(inf).transfer[inf volume]', lambda: pipe.transfer(inf))
+        await b.probe('Pipe(inf).transfer[inf volume, inf limit]',
+                      lambda: pipe.transfer(inf, inf))
+        await b.probe('Pipe(inf).transfer[tiny volume]', lambda: pipe.transfer(5e-324))
+        unbounded = UnboundedPipe()
+        await b.probe('UnboundedPipe.transfer[inf volume]', lambda: unbounded.transfer(inf))
+        finite = Pipe(throughput=2)
+        await b.probe('Pipe.transfer[tiny volume]', lambda: finite.transfer(5e-324))
+        await b.probe('Pipe.transfer[positive, inf limit]', lambda: finite.transfer(1, inf))
+        await b.probe('Pipe.transfer[positive, huge limit]', lambda: finite.transfer(1, 1e300))
+
     # ---- tickers ----
     for how in ('interval', 'delay'):
         for period in (0, 1):
